@@ -29,6 +29,21 @@ BUILT = {
             "Every history of single transactions / finalise steps within the depth bound with read requests inserted at every position (executing ones — eth_call, eth_callMany with state carry-over and failing middle calls, eth_estimateGas(Many), brc20_balance — at block boundaries; non-executing queries also mid-block): the logical state before and after each read is equal, the final observation equals that of the read-free history, and after committing both instances their complete database rows are identical.",
             "Bounded histories; simulated code is the probe contract S (storage writes, creation, self-destruct, revert, invalid opcode).",
             "DESIGN.md §4 C10"),
+    "C06": ("hist", "model_checking",
+            "explicit-state exploration of the real engine; chain-coherence invariant recomputed by the harness in every boundary state",
+            "In every block-boundary state of every history within the bounds (multi-transaction blocks with failing / reverting / out-of-gas / EVM-invalid transactions, contract-created contracts, pool drains, empty blocks, commit, reorg and regrowth) the harness recomputes with its own code, from the receipts the indexer was handed: height contiguity, parent links, hash<->number inversion, the block's transaction list, tx / receipt / (block,index) / inscription cross references, contiguous log indexes, cumulative gas and block gas, bloom union (alloy Bloom), SHA-256 merkle root (own implementation), RLP-decoded raw block and raw receipts, contract address -> inscription id.",
+            "Bounded histories. One known finding (identical EVM-invalid transactions share a hash) is reported as KNOWN-FINDING; lookups of such hashes are not checked further.",
+            "DESIGN.md §4 C06"),
+    "C07": ("hist", "model_checking",
+            "explicit-state exploration of the real engine against a reference ledger folded over the surviving calls",
+            "Every history within the bounds over deposits / withdrawals (tickers in several spellings, amounts 0 .. 2^256-1, overflow, over-withdrawal), controller and token-contract transfers, approvals, transferFroms by two pkscripts and a signer, adversarial mint / burn calls by users on the controller and on the token contract, reorg and commit; at every block boundary brc20_balance for every (pkscript, spelling), balanceOf and totalSupply on the token contracts must equal a reference ledger that only successful deposits / withdrawals / transfers update; operations exceeding the balance must fail; user mint / burn must never succeed; supply = sum of holders.",
+            "Bounded histories, three holders, two tickers; the instance is initialised with brc20_initialise (documented protocol). Whether a transfer within balance succeeds (allowances) is observed, not predicted.",
+            "DESIGN.md §4 C07"),
+    "C08": ("hist", "model_checking",
+            "explicit-state exploration of the real engine against a reference nonce pool (DESIGN Appendix B) run in lock-step",
+            "All arrival orders of signed transactions of two signers (nonces 0..3, P-1, P), duplicates, replacements, other chain id, undecodable RLP, EVM-invalid due transactions, inscription transactions in between, finalise, idle blocks up to the expiry edge (seeds with entries aged P-3 .. P blocks), reorg, clearCaches and commit, within the depth bounds; after every step: receipts per call = transactions appended with consecutive indexes, drains in nonce order with the parked transaction's own nonce, ignored / parked transactions produce no receipt, txpool_content / txpool_contentFrom equal the model's waiting set, eth_getTransactionCount equals the number of executed nonces, an error changes nothing.",
+            "Bounded histories. The behaviour of waiting successors after an EVM-invalid due transaction is not prescribed by the statement: the model follows the code there and only the invariants are checked.",
+            "DESIGN.md §4 C08, Appendix B"),
 }
 
 NOT_BUILT_REASON = "check not built yet in this round (planned in DESIGN.md §4); nothing is claimed for it"
